@@ -30,6 +30,11 @@ def decide(ctx, cases, drv_prop="C02", fd3=False):
         return lib.run_both(s, timeout=20)
 
     res = lib.pmap(one, scripts)
+    # a timeout under load is not evidence: re-run such cases one at a time with a generous limit
+    for i, (b, o) in enumerate(res):
+        if b["timeout"] or o["timeout"]:
+            res[i] = lib.run_both(scripts[i], timeout=120)
+            ctx.bucket("retried_after_timeout")
     mouts = lib.run_drv_parallel([drv_prop + " " + flowgen.wire_prog(p) for _, p, _ in cases])
     nshown = 0
     for (tag, p, raw), s, (b, o), m in zip(cases, scripts, res, mouts):
